@@ -11,7 +11,7 @@ BIN="$("$VERIF/build.sh" "$WT" 2>/tmp/mt-$NAME.build.log | tail -1)"
 [ -x "$BIN" ] || { echo "build failed"; tail -20 /tmp/mt-$NAME.build.log; exit 2; }
 VR="/tmp/vr-mt-$NAME"; mkdir -p "$VR"; cp "$VERIF/known_findings.json" "$VR/"
 for P in "$@"; do
-  OUT="$("$BIN" check --prop "$P" --tier quick --scale "$SCALE" --minimise-secs 20 --verif-root "$VR" 2>/dev/null | grep -E "^VIOLATION|^  C[0-9]+ \[|^property|HARNESS|CRASH" | cut -c1-400)"
+  OUT="$("$BIN" check --prop "$P" --tier quick --scale "$SCALE" --minimise-secs 20 ${DESIM_WORKERS:+--workers $DESIM_WORKERS} --verif-root "$VR" 2>/dev/null | grep -E "^VIOLATION|^  C[0-9]+ \[|^property|HARNESS|CRASH" | cut -c1-400)"
   if echo "$OUT" | grep -q "^VIOLATION"; then echo "[$NAME] $P: DETECTED"; else echo "[$NAME] $P: missed"; fi
   echo "$OUT" | sed 's/^/      /'
 done
